@@ -11,7 +11,8 @@ ASSUMPTIONS = ["symbolic decoder: 'bitwise identical on every real voxel' is a s
 RULE = ("synthetic default-layout 2-bit sources with each dimension below/at/above one and two 64-blocks, 0-5 stored arrays "
         "(incl. duplicate fields), regular and irregular, old and new footer conventions; the 64x64x4 output must be "
         "conformant and every API view (volume, axes, trace count, file headers, every trace header, tracefields, hash) must "
-        "equal the source's; non-2-bit / non-default-layout inputs must be refused without output")
+        "equal the source's; non-2-bit / non-default-layout inputs must be refused without output"
+        "; K: Model/Reblock.units (source unit or zero per output unit) vs the real output")
 
 
 def model_units(ctx, model, fi, out, desc):
